@@ -92,18 +92,24 @@ def confirm_get_modifiers(check, r):
 
 
 def confirm_english_mask(check, r):
+    """Native: both methods, both orders of the two setter calls; the raw typed text must be offered iff English on and ANSI off."""
     scs = []
-    for e in (False, True):
-        for a in (False, True):
-            cfg = dict(PHON, opts={"phonetic_suggestion": True, "english": e, "ansi": a})
-            scs.append(({"steps": [{"op": "new", "config": cfg}, {"op": "key", "key": 0xA0A0}]}, e, a))
-    out = run_replay([s for s, _, _ in scs])
-    for (sc, e, a), o in zip(scs, out):
+    fixed = {"layout": REPO + "/data/Probhat.json", "database": REPO + "/data"}
+    for first in (False, True):
+        for e in (False, True):
+            for a in (False, True):
+                o = {"phonetic_suggestion": True, "fixed_suggestion": True, "english": e, "ansi": a, "_ansi_first": first}
+                for base, raw in ((PHON, "k"), (fixed, "j")):
+                    scs.append(({"steps": [{"op": "new", "config": dict(base, opts=o)}, {"op": "key", "key": 0xA0A0 if base is PHON else 0xA09F}]}, e, a, first, raw))
+    out = run_replay([s[0] for s in scs])
+    for (sc, e, a, first, raw), o in zip(scs, out):
         res = o["results"][1]
         lst = res.get("suggestion", {}).get("list", [])
-        has = "k" in lst
+        has = raw in lst
         if has != (e and not a):
-            return dict(key="english candidate mask", what="english=%s ansi=%s: raw text offered=%s" % (e, a, has),
+            return dict(key="english candidate mask",
+                        what="options set in the order %s, English=%s ANSI=%s (%s method): raw typed text offered=%s, list %s" % (
+                            "ANSI then English" if first else "English then ANSI", e, a, "phonetic" if raw == "k" else "fixed", has, lst),
                         replay=dict(scenario=sc, observed=res))
     return False
 
